@@ -649,3 +649,107 @@ Qed.
 Lemma model_verdicts_cache_irrelevant pki trcs steps :
   model_verdicts pki trcs true steps = model_verdicts pki trcs false steps.
 Proof. unfold model_verdicts. apply verify_steps_cached_c_ok. apply vc_empty_ok. Qed.
+
+(** ------------------------------------------------------------------
+    Tampering in a world given by a list [H] of honest signing records (any
+    number of segments, any number of records per signer), without any condition
+    on the struct field Local of the altered entry. *)
+Lemma raw_block_removed info A B e :
+  concat (pairs B) <> [] -> raw info A e <> raw info (A ++ B) e.
+Proof.
+  intros D E. rewrite !raw_eq, concat_pairs_app in E. do 2 apply app_inv_head in E.
+  rewrite <- (app_nil_r (concat (pairs A))) in E at 1. apply app_inv_head in E. now apply D.
+Qed.
+
+Section WorldH.
+  Variable PK : Type.
+  Variable sig_valid : PK -> bytes -> bytes -> bool.
+  Variable hash : N -> bytes -> bytes.
+  Variable kind : PK -> N.
+  Variable notify : N -> N -> N -> bool.
+  Variable certs_for : N -> bytes -> validity -> option (list PK).
+  Variable SK : Type.
+  Variable sign_with : SK -> bytes -> bytes.
+  Variable pub : SK -> PK.
+  Variable H : list (record SK).
+
+  Notation vseg := (verify_segment PK sig_valid hash kind notify certs_for).
+
+  Definition r_sig (r : record SK) : bytes :=
+    sign_with (r_sk SK r) (dig hash (r_algo SK r) (r_raw SK r)).
+
+  (** no forgeries: whatever [sig_valid] accepts is the triple of a record in [H] *)
+  Definition unforgeableH : Prop :=
+    forall pk d sg, sig_valid pk d sg = true ->
+      exists r, In r H /\ (pk, d, sg) = r_triple PK hash SK sign_with pub r.
+  Definition hashedH : Prop := forall r, In r H -> hash_of (r_algo SK r) <> 0.
+
+  (** the ISD-AS an entry claims in the key id of its signed header *)
+  Definition claimed_ia (e : entry) : option N :=
+    match parse_hb (e_hb e) with
+    | Some (h, _) => match parse_keyid (h_keyid h) with Some kid => Some (k_ia kid) | None => None end
+    | None => None
+    end.
+
+  (** honest PKI, for whatever ISD-AS: only [pk0] is certified for [ia] *)
+  Definition cert_only (ia : N) (pk0 : PK) : Prop :=
+    forall skid v keys pk, certs_for ia skid v = Some keys -> In pk keys -> pk = pk0.
+
+  (** An entry that is verified against bytes (or carries a signature) that the
+      holder of the key certified for the claimed ISD-AS never produced makes the
+      segment fail. *)
+  Lemma tamper_fresh s' A' e' S' ia pk0 :
+    unforgeableH -> collision_free hash -> hashedH ->
+    s_entries s' = A' ++ e' :: S' ->
+    claimed_ia e' = Some ia -> cert_only ia pk0 ->
+    (forall r, In r H -> pub (r_sk SK r) = pk0 ->
+       r_raw SK r <> raw (s_info s') A' e' \/ r_sig r <> e_sig e') ->
+    vseg s' = false.
+  Proof.
+    intros Hu Hc Hh E' Hcl Hco Hfresh.
+    destruct (vseg s') eqn:V; [|reflexivity]. exfalso.
+    apply sound_complete with (A := A') (e := e') (S := S') in V; [|exact E'].
+    destruct V as (h & body & kid & keys & pk & P & K & _ & _ & _ & _ & C & Hin & _ & Al & Sv).
+    unfold claimed_ia in Hcl. rewrite P, K in Hcl. inversion Hcl; subst ia.
+    assert (pk = pk0) by (eapply Hco; eauto). subst pk.
+    destruct (Hu _ _ _ Sv) as (r & Hr & T). inversion T as [[T1 T2 T3]].
+    destruct (Hfresh r Hr (eq_sym T1)) as [D|D].
+    - apply D. symmetry. eapply Hc; [| |exact T2].
+      + eapply check_algo_hash; eauto.
+      + now apply Hh.
+    - apply D. unfold r_sig. unfold r_triple in T. congruence.
+  Qed.
+
+  (** a Local that is neither zero nor the claimed ISD-AS is rejected outright *)
+  Lemma bound_mismatch_rejected s' A' e' S' ia :
+    s_entries s' = A' ++ e' :: S' -> claimed_ia e' = Some ia ->
+    e_local e' <> 0 -> e_local e' <> ia -> vseg s' = false.
+  Proof.
+    intros E' Hcl Hz Hne. destruct (vseg s') eqn:V; [|reflexivity]. exfalso.
+    apply sound_complete with (A := A') (e := e') (S := S') in V; [|exact E'].
+    destruct V as (h & body & kid & keys & pk & P & K & _ & B & _).
+    unfold claimed_ia in Hcl. rewrite P, K in Hcl. inversion Hcl; subst ia.
+    destruct B; contradiction.
+  Qed.
+
+  (** [e] (after [A] in [s]) is an honest entry: it claims [ia], only the key of
+      its signer is certified for [ia], and that key signed nothing but this
+      entry's bytes (other signers are unrestricted) *)
+  Definition honest_entry (s : segment) (A : list entry) (e : entry) (sk : SK) (ia : N) : Prop :=
+    claimed_ia e = Some ia /\ cert_only ia (pub sk) /\
+    forall r, In r H -> pub (r_sk SK r) = pub sk ->
+      r_raw SK r = raw (s_info s) A e /\ r_sig r = e_sig e.
+
+  Lemma tamper_coreH s A e sk ia s' A' e' S' :
+    unforgeableH -> collision_free hash -> hashedH ->
+    honest_entry s A e sk ia ->
+    s_entries s' = A' ++ e' :: S' -> claimed_ia e' = Some ia ->
+    (raw (s_info s') A' e' <> raw (s_info s) A e \/ e_sig e' <> e_sig e) ->
+    vseg s' = false.
+  Proof.
+    intros Hu Hc Hh (Hcl & Hco & Honce) E' Hcl' Hd.
+    eapply tamper_fresh; eauto.
+    intros r Hr Hk. destruct (Honce r Hr Hk) as [R1 R2]. rewrite R1, R2.
+    destruct Hd as [D|D]; [left|right]; intros Q; apply D; now rewrite Q.
+  Qed.
+End WorldH.
